@@ -349,6 +349,137 @@ theorem jpegDims_none (items : List JpegItem) (hok : ∀ it ∈ items, it.WellFo
         items.flatMap JpegItem.bytes ++ tail := by simp
     rw [e, jpegScan_eq_scanOf _ _ (by simp; omega), scanOf_items_none items hok tail htail]
 
+/-! ### no window: what stands in front of / behind the dimension-bearing structure is irrelevant -/
+
+/-- any list of well-formed items — segments of any length, as many as one likes — is skipped as a
+whole when at least 10 bytes follow -/
+theorem scanOf_items_skip (items : List JpegItem) (hok : ∀ it ∈ items, it.WellFormed)
+    (R : List Nat) (hR : 9 < R.length) :
+    scanOf (items.flatMap JpegItem.bytes ++ R) = scanOf R := by
+  induction items with
+  | nil => simp
+  | cons it items ih =>
+    simp only [List.flatMap_cons, List.append_assoc]
+    rw [scanOf_item_long it (hok it (by simp)) _ (by simp; omega)]
+    exact ih (fun x hx => hok x (by simp [hx]))
+
+/-- `_get_jpeg_dimensions` on SOI followed by `X` (at least 8 bytes) is the scan of `X` -/
+theorem jpegDims_soi (X : List Nat) (h : 8 ≤ X.length) :
+    jpegDims ([0xFF, 0xD8] ++ X) = match scanOf X with
+      | .found w h => some (w, h)
+      | _ => none := by
+  unfold jpegDims
+  rw [if_neg (by simp; omega)]
+  have e : ([0xFF, 0xD8] ++ X).drop 2 = X := by simp
+  rw [e, jpegScan_eq_scanOf _ _ (by simp; omega)]
+  cases scanOf X <;> rfl
+
+theorem jpegDims_prefix_irrelevant (items : List JpegItem) (hok : ∀ it ∈ items, it.WellFormed)
+    (R : List Nat) :
+    jpegDims ([0xFF, 0xD8] ++ items.flatMap JpegItem.bytes ++ R) = jpegDims ([0xFF, 0xD8] ++ R) := by
+  by_cases hR : 9 < R.length
+  · rw [List.append_assoc, jpegDims_soi _ (by simp; omega), jpegDims_soi _ (by omega),
+      scanOf_items_skip items hok R hR]
+  · rw [jpegDims_none items hok R (by omega)]
+    symm
+    by_cases h8 : 8 ≤ R.length
+    · rw [jpegDims_soi _ h8, scanOf_short _ (by omega)]
+    · unfold jpegDims
+      rw [if_pos]
+      left
+      simp
+      omega
+
+/-- a frame header the scanner has found stays found, with the same fields, whatever is appended
+to the data (image data of any size behind the header) -/
+theorem scanOf_append_aux (n : Nat) : ∀ (rest tail : List Nat) (w h : Nat), rest.length ≤ n →
+    scanOf rest = .found w h → scanOf (rest ++ tail) = .found w h := by
+  induction n with
+  | zero =>
+    intro rest tail w h hl hf
+    rw [scanOf_short rest (by omega)] at hf
+    cases hf
+  | succ n ih =>
+    intro rest tail w h hl hf
+    by_cases h9 : 9 < rest.length
+    · have h9' : 9 < (rest ++ tail).length := by simp; omega
+      have g : ∀ k, k < 10 → (rest ++ tail).getD k 0 = rest.getD k 0 := by
+        intro k hk
+        simp only [List.getD_eq_getElem?_getD]
+        rw [List.getElem?_append_left (by omega)]
+      have step : ∀ k, 0 < k → scanOf (rest.drop k) = .found w h →
+          scanOf ((rest ++ tail).drop k) = .found w h := by
+        intro k hk hfk
+        by_cases hkl : k ≤ rest.length
+        · rw [List.drop_append_of_le_length hkl]
+          exact ih _ _ _ _ (by simp; omega) hfk
+        · rw [scanOf_short _ (by simp; omega)] at hfk
+          cases hfk
+      rw [scanOf_step, if_pos h9] at hf
+      rw [scanOf_step, if_pos h9', g 0 (by omega), g 1 (by omega), g 2 (by omega), g 3 (by omega),
+        g 5 (by omega), g 6 (by omega), g 7 (by omega), g 8 (by omega)]
+      by_cases c0 : rest.getD 0 0 = 0xFF
+      · rw [if_pos c0] at hf ⊢
+        by_cases c1 : rest.getD 1 0 = 0xFF
+        · rw [if_pos c1] at hf ⊢
+          exact step 1 (by omega) hf
+        · rw [if_neg c1] at hf ⊢
+          by_cases c2 : isStandalone (rest.getD 1 0) = true
+          · rw [if_pos c2] at hf ⊢
+            exact step 2 (by omega) hf
+          · rw [if_neg c2] at hf ⊢
+            by_cases c3 : isSof (rest.getD 1 0) = true
+            · rw [if_pos c3] at hf ⊢
+              exact hf
+            · rw [if_neg c3] at hf ⊢
+              exact step _ (by omega) hf
+      · rw [if_neg c0] at hf ⊢
+        exact step 1 (by omega) hf
+    · rw [scanOf_short rest (by omega)] at hf
+      cases hf
+
+theorem jpegDims_append (bs tail : List Nat) (d : Nat × Nat) (hd : jpegDims bs = some d) :
+    jpegDims (bs ++ tail) = some d := by
+  unfold jpegDims at hd
+  split at hd
+  · cases hd
+  · rename_i hc
+    have hlen : 10 ≤ bs.length := by omega
+    have h2 : bs.take 2 = [0xFF, 0xD8] := by
+      by_cases h : bs.take 2 = [0xFF, 0xD8]
+      · exact h
+      · exact absurd (Or.inr h) hc
+    rw [jpegScan_eq_scanOf _ _ (by simp; omega)] at hd
+    unfold jpegDims
+    rw [if_neg (by
+      intro h
+      rcases h with h | h
+      · simp at h; omega
+      · rw [List.take_append_of_le_length (by omega)] at h; exact h h2)]
+    rw [List.drop_append_of_le_length (by omega), jpegScan_eq_scanOf _ _ (by simp; omega)]
+    split at hd
+    · rename_i w h hs
+      rw [scanOf_append_aux _ _ tail w h (Nat.le_refl _) hs]
+      exact hd
+    · cases hd
+
+/-- the PNG parser looks at the first 24 bytes only: chunks and image data of any size behind
+IHDR change nothing -/
+theorem pngDims_append (bs tail : List Nat) (h : 24 < bs.length) :
+    pngDims (bs ++ tail) = pngDims bs := by
+  have ht : (bs ++ tail).take 8 = bs.take 8 := List.take_append_of_le_length (by omega)
+  have hs : ∀ a b, b ≤ bs.length → slice (bs ++ tail) a b = slice bs a b := by
+    intro a b hb
+    unfold slice
+    by_cases hab : a ≤ bs.length
+    · rw [List.drop_append_of_le_length hab, List.take_append_of_le_length (by simp; omega)]
+    · have : b - a = 0 := by omega
+      simp [this]
+  unfold pngDims
+  rw [ht, hs 16 20 (by omega), hs 20 24 (by omega)]
+  have : (24 < (bs ++ tail).length) = True := by simp; omega
+  simp only [this, true_and, h]
+
 /-! ## sizes -/
 
 theorem truncMul_floor (s : Size) (k : Nat) (hd : 0 < s.den) :
